@@ -775,7 +775,8 @@ def run(case):
       outs = list(api['mime'](params, _clients([(i, _deliver(cb, form, cv), rng)
                                                  for i, (cb, cv) in enumerate(zip(client_batches, client_views))], cform)))
       g['mime_layout'] = [_layout(cb) for cb in client_batches]
-      g['mime_clients'] = [_vec(gs) + [_fl(num)] for _, (gs, num) in outs]
+      by_id = dict(outs)      # backends may yield the clients in another order: match by client id
+      g['mime_clients'] = [_vec(by_id[i][0]) + [_fl(by_id[i][1])] for i in range(len(client_batches))]
       gsum, nsum = tree_util.tree_sum(co for _, co in outs)
       g['mime_server'] = _vec(tree_util.tree_inverse_weight(gsum, nsum))
       shared = {'params': params, 'alpha': jnp.array(ALPHA, jnp.float32)}
